@@ -148,7 +148,7 @@ def segment_invariants(r, key_prefix, case, t, y, i0, i1, target, t0_first, y0_f
             observed=dict(index=i0 + k, t=[float(x) for x in seg[max(0, k - 1):k + 3]]), expected="strictly %s" % ("increasing" if d > 0 else "decreasing"))
         return False
     tol = ulps * e * max(1.0, abs(float(seg[0])), abs(float(target)))
-    over = (seg - LD(target)) * d
+    over = (seg - LD(target)) * d             # target is passed in the working precision (a longdouble target keeps all its bits)
     if np.any(over > tol):
         k = int(np.argmax(over))
         r.v(key_prefix + "/overshoot", "no recorded step overshoots the target", case,
